@@ -188,6 +188,52 @@ def stage_mc_neg(run, st):
     log('[mc-neg %s] counterexample for %s found as expected' % (st['name'], st['expect']))
 
 
+def stage_ind(run, st):
+    """Unbounded design-level argument: Apalache discharges an INDUCTIVE invariant of the module (Init => IndInv,
+    IndInv /\\ Next => IndInv', IndInv => Safety) for any number of operations; two guards must FAIL (the typed
+    invariant has states deep inside critical sections; the as-built deviation is not inductive)."""
+    wd = run.sub('ind-' + st['name'])
+    for f in glob.glob(os.path.join(SPEC, '*.tla')) + glob.glob(os.path.join(SPEC, 'apalache', '*.tla')):
+        shutil.copy(f, os.path.join(wd, os.path.basename(f)))
+    def cfg(name, consts):
+        p = os.path.join(wd, name + '.cfg')
+        open(p, 'w').write('CONSTANTS\n' + ''.join('  %s = %s\n' % kv for kv in consts.items()) + 'INIT IndInit\nNEXT Next\nINVARIANT IndInv\n')
+        return name + '.cfg'
+    good = cfg('good', st['consts'])
+    bad = cfg('bad', st['neg_consts'])
+    obl = [('Init => IndInv', good, ['--init=Init', '--inv=IndInv', '--length=0'], True),
+           ('IndInv /\\ Next => IndInv\'', good, ['--init=IndInit', '--inv=IndInv', '--length=1'], True),
+           ('IndInv => ' + st['safety'], good, ['--init=IndInit', '--inv=' + st['safety'], '--length=0'], True),
+           ('guard: IndInit has deep states', good, ['--init=IndInit', '--inv=Unsat', '--length=0'], False),
+           ('guard: the as-built deviation is not inductive', bad, ['--init=IndInit', '--inv=IndInv', '--length=1'], False)]
+
+    def one(o):
+        name, c, args, want = o
+        od = tempfile.mkdtemp(prefix='apa-', dir=wd)
+        cmd = ['apalache-mc', 'check', '--config=' + c, '--out-dir=' + od] + args + [st['module'] + '.tla']
+        try:
+            p = subprocess.run(cmd, cwd=wd, capture_output=True, text=True, timeout=st.get('timeout', 600), stdin=subprocess.DEVNULL)
+        except subprocess.TimeoutExpired:
+            raise Infra('apalache timeout: ' + ' '.join(cmd))
+        out = p.stdout + p.stderr
+        ok = 'The outcome is: NoError' in out
+        err = 'The outcome is: Error' in out and 'invariant' in out and 'violated' in out
+        if not (ok or err):
+            raise Infra('apalache did not reach a verdict (%s):\n%s' % (' '.join(cmd), out[-2500:]))
+        return name, ' '.join(cmd[:2] + args), ok, want
+
+    with cf.ThreadPoolExecutor(max_workers=5) as ex:
+        res = list(ex.map(one, obl))
+    for name, cmd, ok, want in res:
+        if ok != want:
+            raise Infra('inductive argument %s: obligation "%s" %s (a specification error, not a verdict about the code)'
+                        % (st['name'], name, 'failed' if want else 'unexpectedly holds: vacuous guard'))
+    run.exhaustive_parts.append({'stage': st['name'], 'module': st['module'], 'inductive_invariant': 'IndInv', 'unbounded_in': st.get('unbounded_in', ''),
+                                 'obligations_discharged': [r[0] for r in res if r[3]], 'guards_that_must_fail': [r[0] for r in res if not r[3]],
+                                 'checker': 'apalache-mc 0.58 (SMT, z3)', 'cmds': [r[1] for r in res]})
+    log('[ind %s] inductive invariant discharged by Apalache (3 obligations hold, 2 guards fail as they must)' % st['name'])
+
+
 def stage_repotests(run, st):
     """The repository's own test suite as a trace source (CCF style): built with -tags verif, every Add/Remove/Clean/Handler call the
     tests make is recorded through the call-trace hooks and validated by Trace_Tree.tla."""
@@ -635,6 +681,8 @@ def run_check(prop, tier, seed):
             kind = st['kind']
             if kind == 'mc':
                 stage_mc(run, st)
+            elif kind == 'ind':
+                stage_ind(run, st)
             elif kind == 'mc_neg':
                 stage_mc_neg(run, st)
             elif kind == 'repotests':
